@@ -565,16 +565,11 @@ func (lc *loopCtx) classifyBlock(s *ast.ForStmt) loopVerdict {
 	var okObj types.Object
 	var callTxt string
 	inspectNoLit(s.Body, func(x ast.Node) bool {
-		as, isAs := x.(*ast.AssignStmt)
-		if isAs && len(as.Lhs) == 2 && len(as.Rhs) == 1 {
-			if call, isCall := ast.Unparen(as.Rhs[0]).(*ast.CallExpr); isCall {
+		if lhs, rhs, isDef := multiDef(x); isDef && len(lhs) == 2 {
+			if call, isCall := ast.Unparen(rhs).(*ast.CallExpr); isCall {
 				if fn := calleeOf(info, call); fn != nil && fn.Name() == "RemoveHead" {
-					if id, ok := as.Lhs[1].(*ast.Ident); ok {
-						if o := info.Defs[id]; o != nil {
-							okObj = o
-						} else {
-							okObj = info.Uses[id]
-						}
+					if o := identObj(info, lhs[1]); o != nil {
+						okObj = o
 						callTxt = exprStr(call.Fun)
 					}
 				}
